@@ -285,3 +285,35 @@ func EnvStructPtr(vals map[string]*m.Val) (interface{}, bool) {
 	}
 	return s.Interface(), true
 }
+
+// EnvStructPtrMixed: optional-typed bindings are pointer fields tagged maybe (nil or not),
+// every other binding of type T is an UNTAGGED non-nil *T - except nilName, whose pointer is
+// left nil (conv then binds it as an absent maybe[T]). The Go type is the same for every
+// nilName ("" = none): one Go struct type, environments of different yae types.
+func EnvStructPtrMixed(vals map[string]*m.Val, nilName string) interface{} {
+	names := sortedValKeys(vals)
+	fs := make([]reflect.StructField, len(names))
+	for i, n := range names {
+		v := vals[n]
+		if v.T.K == m.TMaybe {
+			fs[i] = reflect.StructField{Name: fmt.Sprintf("F%d", i), Type: GoType(v.T), Tag: reflect.StructTag(fmt.Sprintf(`yae:"%s,maybe"`, n))}
+			continue
+		}
+		fs[i] = reflect.StructField{Name: fmt.Sprintf("F%d", i), Type: reflect.PointerTo(GoType(v.T)), Tag: reflect.StructTag(fmt.Sprintf(`yae:"%s"`, n))}
+	}
+	s := reflect.New(reflect.StructOf(fs)).Elem()
+	for i, n := range names {
+		v := vals[n]
+		if v.T.K == m.TMaybe {
+			s.Field(i).Set(GoValue(v))
+			continue
+		}
+		if n == nilName {
+			continue
+		}
+		p := reflect.New(fs[i].Type.Elem())
+		p.Elem().Set(GoValue(v))
+		s.Field(i).Set(p)
+	}
+	return s.Interface()
+}
